@@ -374,6 +374,9 @@ type ObjectWriter struct {
 	objfile.Writer
 	fs billy.Filesystem
 	f  billy.File
+	// saved, when set, is called once the object is at its permanent
+	// location.
+	saved func()
 }
 
 func newObjectWriter(fs billy.Filesystem, objectFormat formatcfg.ObjectFormat) (*ObjectWriter, error) {
@@ -399,7 +402,15 @@ func (w *ObjectWriter) Close() error {
 		return err
 	}
 
-	return w.save()
+	if err := w.save(); err != nil {
+		return err
+	}
+
+	if w.saved != nil {
+		w.saved()
+	}
+
+	return nil
 }
 
 func (w *ObjectWriter) save() error {
